@@ -289,6 +289,9 @@ func c18Server(res *vlib.Result, obj string, remote bool) {
 		case "dir0755":
 			_ = os.Mkdir(announced, 0o755)
 			_ = os.Chmod(announced, 0o755)
+		case "dir0500":
+			_ = os.Mkdir(announced, 0o500)
+			_ = os.Chmod(announced, 0o500)
 		case "dir0700-other-uid":
 			_ = os.Mkdir(announced, 0o700)
 			_ = os.Chown(announced, 65534, 65534)
@@ -333,6 +336,11 @@ func c18Server(res *vlib.Result, obj string, remote bool) {
 		if suser != wantUser {
 			res.Violate("C18/server-identity/"+obj, "%s: recorded identity %q, the directory's owner is %q", id, suser, wantUser)
 		}
+	}
+	if serr != nil && suser != "" {
+		// the identity outlives this method: a later method of the same handshake that sets no
+		// identity of its own would inherit it
+		res.Violate("C18/server-identity-recorded-for-refused-object/"+obj, "%s: the server refused the object (%v) yet recorded identity %q", id, serr, suser)
 	}
 	if announced != "" && !refAccept(announced, remote, "10.2.2.2:9618") {
 		res.Violate("C18/server-announces-unacceptable-path", "%s", id)
@@ -390,7 +398,7 @@ func c18Paths(peer string, thorough bool) []string {
 func C18Plan() *vlib.Plan {
 	p := &vlib.Plan{
 		Property: "C18", Level: "exploration", Workers: 1, Quiet: true,
-		Rule:   "E-ENUM in a private mount namespace (fresh tmpfs on /tmp): paths = base in {/tmp, /tmp/, //tmp, /tmp/., /tmp/../tmp, /var/tmp, /tmp/sub, /tmp/link (symlink to a decoy dir), tmp, '', /proc/self/root/tmp, a symlink elsewhere that resolves to /tmp} x leaf in {recognised and near-miss names, '.', '..', traversal, control and non-ASCII bytes, 5000 chars, remote forms, address forms over 12 ip spellings (the peer's own, other v4 / v6 hosts, equivalent long and v4-mapped spellings, a host name, a bracketed form) x 5 ports} (+ every single-character mutation of two accepted paths in thorough) x peer address {v4, v6} x {local, remote} x scripted server {answers 0, answers -1, closes after the path, closes after reading the client's answer (no verdict), trailing bytes}; recursive snapshots of /tmp + scratch CWD + decoy dirs before / when the server holds the client's answer / after. Oracle: independent path validator written from the statement; at most one directory, only for acceptable paths, mode 0700, answer 0 iff created, snapshot restored afterwards, client nil iff server answered 0. Server half against {nothing, dir 0700, dir 0755, dir of another uid, dir with a sub-directory, regular file, symlink to dir / file, fifo}. Non-trivial = every exchange (distinct by construction).",
+		Rule:   "E-ENUM in a private mount namespace (fresh tmpfs on /tmp): paths = base in {/tmp, /tmp/, //tmp, /tmp/., /tmp/../tmp, /var/tmp, /tmp/sub, /tmp/link (symlink to a decoy dir), tmp, '', /proc/self/root/tmp, a symlink elsewhere that resolves to /tmp} x leaf in {recognised and near-miss names, '.', '..', traversal, control and non-ASCII bytes, 5000 chars, remote forms, address forms over 12 ip spellings (the peer's own, other v4 / v6 hosts, equivalent long and v4-mapped spellings, a host name, a bracketed form) x 5 ports} (+ every single-character mutation of two accepted paths in thorough) x peer address {v4, v6} x {local, remote} x scripted server {answers 0, answers -1, closes after the path, closes after reading the client's answer (no verdict), trailing bytes}; recursive snapshots of /tmp + scratch CWD + decoy dirs before / when the server holds the client's answer / after. Oracle: independent path validator written from the statement; at most one directory, only for acceptable paths, mode 0700, answer 0 iff created, snapshot restored afterwards, client nil iff server answered 0. Server half (accept only the real owner-only directory, record its owner, record NOTHING for a refused object) against {nothing, dir 0700, dir 0755, dir 0500, dir of another uid, dir with a sub-directory, regular file, symlink to dir / file, fifo}. Non-trivial = every exchange (distinct by construction).",
 		Assume: []string{"runs inside `unshare -m` with a tmpfs on /tmp when available (evidence field namespace); as root"},
 	}
 	p.Gen = func(tier string, yield func(vlib.Case)) {
@@ -416,7 +424,7 @@ func C18Plan() *vlib.Plan {
 				}
 			}
 		}
-		for _, obj := range []string{"nothing", "dir0700", "dir0755", "dir0700-other-uid", "dir-with-subdir", "regular-file", "symlink-to-dir", "symlink-to-file", "fifo"} {
+		for _, obj := range []string{"nothing", "dir0700", "dir0755", "dir0500", "dir0700-other-uid", "dir-with-subdir", "regular-file", "symlink-to-dir", "symlink-to-file", "fifo"} {
 			for _, remote := range []bool{false, true} {
 				obj, remote := obj, remote
 				yield(vlib.Case{ID: fmt.Sprintf("server/%s/remote=%v", obj, remote), Run: func() *vlib.Result {
